@@ -10,7 +10,8 @@ merges adjacent layers and is refused whenever an attribute that changes pixels 
 (C14.d).
 Added in round 4: ranges of sources are merged unfiltered (a source without range makes the layer
 unlimited), the opacity of a layer is never tested by truthiness and fades exactly below 1.0
-(C14.i); a group layer is as opaque as what it draws (C14.b)."""
+(C14.i); a group layer is as opaque as what it draws (C14.b).
+Added in round 5: flatten_to_polygons tests the type of each part (C14.j)."""
 import ast
 
 from ..engine import rule, run_property
